@@ -111,6 +111,71 @@ def gen_worker(which, features, nprog, seed, depth, nest, hi):
     return p.d
 
 
+SUB_TEMPLATES = [
+    ("pc", "uint32_t", ["HexInsnPktBundle *bundle", "uint32_t x"], "{ return HEX_REG_ALIAS_PC + x; }"),
+    ("cancel", "uint32_t", ["HexInsnPktBundle *bundle", "uint32_t x"], "{ STORE_SLOT_CANCELLED(pkt, slot); return x; }"),
+    ("imm", "uint32_t", ["HexInsnPktBundle *bundle", "uint32_t x"], "{ return x + uiV; }"),
+    ("reg", "int32_t", ["HexInsnPktBundle *bundle", "int32_t x"], "{ return RsV + x; }"),
+    ("newreg", "int32_t", ["HexInsnPktBundle *bundle", "int32_t x"], "{ return (PuN & 1) ? x : 0; }"),
+    ("call", "uint32_t", ["uint32_t x"], "{ return clz32(x) + 1; }"),
+    ("sext", "int64_t", ["int32_t a"], "{ return (int64_t)a; }"),
+    ("sext2", "int64_t", ["int32_t a", "int8_t b"], "{ int64_t t = a; t = t + b; return t + a; }"),
+    ("loop", "uint32_t", ["uint32_t n"], "{ uint32_t acc = 0; for (i = 0; i < (n & 3); i++) { acc += i; } return acc; }"),
+    ("alias", "uint32_t", ["HexInsnPktBundle *bundle", "uint32_t x"], "{ HEX_REG_ALIAS_LR = x; return HEX_REG_ALIAS_SP; }"),
+    ("usr", "uint32_t", ["HexInsnPktBundle *bundle", "uint32_t x"], "{ set_usr_field(bundle, HEX_REG_FIELD_USR_OVF, x); return x; }"),
+    ("load", "uint32_t", ["HexInsnPktBundle *bundle", "uint32_t a"], "{ return (uint32_t)mem_load_u32(a); }"),
+]
+
+
+def template_texts(which):
+    from . import c07, c09, c15
+    t = [x for _, x in c07.spelling_cells()] + list(c15.TEMPLATES)
+    if which != "C10":
+        t += list(c09.DEAD_ARM_TEMPLATES)
+    return t
+
+
+def template_worker(which, texts, do_subs):
+    import os
+    p = run.Part()
+    subinfo = staticrun.SubInfo()
+    for fmt in ("stmt", "exec"):
+        c = boot.compiler(fmt)
+        resolver = diff.make_resolver(c)
+        for t in texts:
+            p.ev()
+            st, il = progcheck.try_compile(c, t)
+            if st != "ok":
+                p.count("template:rejected")
+                continue
+            p.nontriv(("template", t, fmt))
+            kinds = collections.OrderedDict()
+            for kind, msg in staticrun.check_text(which, il, t, resolver, subinfo):
+                kinds.setdefault(kind, msg)
+            for kind, msg in kinds.items():
+                p.failure(f"{which} template {kind} {t}", {"program": t, "fmt": fmt, "issue": msg})
+    if do_subs:
+        c = boot.compiler("stmt")
+        resolver = diff.make_resolver(c)
+        for tag, ret, params, body in SUB_TEMPLATES:
+            name = f"st_{which.lower()}_{tag}_{os.getpid()}"
+            p.ev()
+            try:
+                with boot.quiet():
+                    c.add_sub_routine(name, ret, params, body)
+            except Exception as e:
+                p.count("sub-routine template rejected")
+                continue
+            subinfo.add(name, ret, params, body)
+            p.nontriv(("subtemplate", tag))
+            kinds = collections.OrderedDict()
+            for kind, msg in staticrun.subroutine_issues(which, c, name, subinfo, resolver):
+                kinds.setdefault(kind, msg)
+            for kind, msg in kinds.items():
+                p.failure(f"{which} sub-routine template {tag} {kind}", {"sub_routine_template": tag, "body": body, "issue": msg})
+    return p.d
+
+
 def run_static(ctx, which, features, extra_fn=None, nq=240, nt=12000, depth=2, nest=2, hi=4):
     enable = progcheck.replay_known(ctx, replay_fn=lambda w: replay_static(which, w))
     features = frozenset(features) | enable
@@ -127,6 +192,9 @@ def run_static(ctx, which, features, extra_fn=None, nq=240, nt=12000, depth=2, n
     sel = subs + sel
     chunks = [sel[i::48] for i in range(48)]
     run.run_sharded(ctx, corpus_worker, [(which, c, extra_fn) for c in chunks if c], procs=16)
+    tt = template_texts(which)
+    ctx.extra["templates"] = len(tt)
+    run.run_sharded(ctx, template_worker, [(which, tt[i::16], i == 0) for i in range(16)])
     n = nt if ctx.tier == "thorough" else nq
     run.run_sharded(ctx, gen_worker, [(which, features, n // 16, run.sub_seed(ctx.seed, which, i), depth, nest, hi)
                                       for i in range(16)])
